@@ -87,9 +87,11 @@ def stepOp1 (d : Drv) (args : List String) : List String × Drv :=
     (["= ok"], { d with w := { d.w with st := { d.w.st with mem := { d.w.st.mem with useDirCache := n x ≠ 0 } } } })
   | "fault" :: k :: rest =>
     let every := match rest with | [e] => n e ≠ 0 | _ => false
-    (["= ok"], { d with w := { d.w with st := { d.w.st with faultAt := some (d.w.st.ioCount + n k), faultEvery := every } } })
+    (["= ok"], { d with w := { d.w with st := { d.w.st with faultAt := some (d.w.st.ioCount + n k), faultEvery := every, faultCount := 1 } } })
+  | ["faultn", k, m] =>
+    (["= ok"], { d with w := { d.w with st := { d.w.st with faultAt := some (d.w.st.ioCount + n k), faultEvery := false, faultCount := n m } } })
   | ["faultclear"] =>
-    ([s!"= ok fired={d.w.st.faultsFired}"], { d with w := { d.w with st := { d.w.st with faultAt := none, faultEvery := false } } })
+    ([s!"= ok fired={d.w.st.faultsFired}"], { d with w := { d.w with st := { d.w.st with faultAt := none, faultEvery := false, faultCount := 1 } } })
   | ["readlimit", _] => (["= ok"], d)
   | ["allocs"] =>
     -- the model's prediction is only meaningful when everything is closed: no allocation is left
